@@ -251,6 +251,16 @@ def _subscriptions(ix, f):
         flt = kwarg(c, 'filter')
         if flt is None and len(c.args) > 3:
             flt = c.args[3]
+        # a handler given by the name of a nested function / a lambda bound to a local: what that function does
+        if isinstance(h, ast.Name):
+            hname = h.id
+            for d in ast.walk(f.node):
+                if isinstance(d, ast.FunctionDef) and d.name == hname and d is not f.node:
+                    h = ast.Lambda(args=d.args, body=ast.Tuple(elts=[x.value for x in d.body if isinstance(x, (ast.Return, ast.Expr)) and x.value is not None], ctx=ast.Load())) \
+                        if all(isinstance(x, (ast.Return, ast.Expr)) for x in d.body) else d
+                elif isinstance(d, ast.Assign) and len(d.targets) == 1 and isinstance(d.targets[0], ast.Name) and d.targets[0].id == hname \
+                        and isinstance(d.value, ast.Lambda):
+                    h = d.value
         out.append((msg, unparse(h) if h is not None else None, unparse(flt) if flt is not None else None))
     return out
 
